@@ -80,16 +80,25 @@ impl UpdateGenerator for MarkdownUpdateGenerator {
                     language,
                     config_lines,
                     comment_lines,
-                    code_lines: _,
+                    code_lines,
                 } => {
                     let config = if config_lines.is_empty() {
                         "".into()
                     } else {
                         format!(" {{{}}}", config_lines.join_newline().trim_start())
                     };
-                    let generated = outcomes[testcase_index]
-                        .generate_testcase()
-                        .with_context(|| format!("testcase number {}", testcase_index + 1))?;
+                    let generated = if has_command(&code_lines) {
+                        let generated = outcomes[testcase_index]
+                            .generate_testcase()
+                            .with_context(|| format!("testcase number {}", testcase_index + 1))?;
+                        testcase_index += 1;
+                        generated
+                    } else if code_lines.is_empty() {
+                        String::new()
+                    } else {
+                        // not a testcase: no outcome belongs to the block, it is kept as it is
+                        formatln!("{}", code_lines.join_newline())
+                    };
                     let backticks = "`".repeat(max_backtick_size(&generated) + 1);
                     updated.push_str(&formatln!("{}{}{}", &backticks, &language, &config));
                     for (_, line) in &comment_lines {
@@ -97,7 +106,6 @@ impl UpdateGenerator for MarkdownUpdateGenerator {
                     }
                     updated.push_str(&generated);
                     updated.push_str(&backticks.assure_newline());
-                    testcase_index += 1;
                 }
             }
         }
@@ -159,6 +167,12 @@ impl TestCaseGenerator for MarkdownTestCaseGenerator {
             .collect::<Result<Vec<_>>>()
             .map(|result| result.join("\n\n"))
     }
+}
+
+/// Whether the code lines of a block contain a command, i.e. whether the block
+/// is a testcase (and has an outcome)
+fn has_command(code_lines: &[(usize, String)]) -> bool {
+    code_lines.iter().any(|(_, line)| line.starts_with("$ "))
 }
 
 /// returns the largest amount of backticks in a line that is found in the given
